@@ -55,30 +55,30 @@ def c06(tier, seed):
     for m in MODELS_LU:
         jobs += _lu(m, maxcands=10 if q else 16, invalid=0, filters="types", seed=(seed + 1) % 7, timeout_ms=60000, max_paths=20000)
         if not q:
-            jobs += _lu(m, maxcands=9, seed=seed % 7, timeout_ms=60000, max_paths=20000, **{_KNOWN: 1})
+            jobs += _lu(m, maxcands=9, seed=seed % 7, timeout_ms=60000, max_paths=20000, **{_KNOWN: 0})
     # exclusion whose subtracted branch runs into a userset cycle (reports the finding "exclusion drops every user")
     jobs += _lu("lu_excl_cycle", maxcands=10, invalid=0, filters="types", timeout_ms=60000, max_paths=6000)
     if q:
         for m in MODELS_QUICK + ["condition"]:
             # A: valid tuples only, filters = the types (objects and typed wildcards as subjects)
-            jobs += _lu(m, maxcands=9, invalid=0, filters="types", seed=(seed + 1) % 7, timeout_ms=60000, max_paths=4000)
+            jobs += _lu(m, parts=2 if m == "ttu" else 1, maxcands=9, invalid=0, filters="types", seed=(seed + 1) % 7, timeout_ms=60000, max_paths=4000)
             # B: with invalid leftovers, all filters (types and type#relation)
-            jobs += _lu(m, maxcands=8, seed=seed % 7, timeout_ms=60000, max_paths=4000, **{_KNOWN: 1})
+            jobs += _lu(m, maxcands=8, seed=seed % 7, timeout_ms=60000, max_paths=4000, **{_KNOWN: 0})
         # C: contextual tuples
-        jobs += _lu("wildcard", maxcands=8, ctx=3, seed=seed % 7, timeout_ms=60000, max_paths=4000, **{_KNOWN: 1})
-        jobs += _lu("exclusion", maxcands=8, ctx=3, seed=seed % 7, timeout_ms=60000, max_paths=4000, **{_KNOWN: 1})
+        jobs += _lu("wildcard", maxcands=8, ctx=3, seed=seed % 7, timeout_ms=60000, max_paths=4000, **{_KNOWN: 0})
+        jobs += _lu("exclusion", maxcands=8, ctx=3, seed=seed % 7, timeout_ms=60000, max_paths=4000, **{_KNOWN: 0})
     else:
         for m in MODELS_ALL:
             parts = _HEAVY.get(m, 1)
             jobs += _lu(m, parts=parts, maxcands=10, invalid=0, filters="types", seed=(seed + 1) % 7, timeout_ms=60000, max_paths=60000)
-            jobs += _lu(m, parts=parts, maxcands=10, seed=seed % 7, timeout_ms=60000, max_paths=60000, **{_KNOWN: 1})
-            jobs += _lu(m, maxcands=8, seed=(seed + 3) % 7, timeout_ms=60000, max_paths=60000, **{_KNOWN: 1})
-            jobs += _lu(m, maxcands=8, ctx=3, seed=(seed + 2) % 7, timeout_ms=60000, max_paths=60000, **{_KNOWN: 1})
+            jobs += _lu(m, parts=parts, maxcands=10, seed=seed % 7, timeout_ms=60000, max_paths=60000, **{_KNOWN: 0})
+            jobs += _lu(m, maxcands=8, seed=(seed + 3) % 7, timeout_ms=60000, max_paths=60000, **{_KNOWN: 0})
+            jobs += _lu(m, maxcands=8, ctx=3, seed=(seed + 2) % 7, timeout_ms=60000, max_paths=60000, **{_KNOWN: 0})
             # breadth limit: no model of the family has more than two operands under a union / intersection,
             # so limit 2 must never stall; limit 1 only where no union / intersection is involved
-            jobs += _lu(m, maxcands=8, breadth=2, seed=(seed + 4) % 7, timeout_ms=60000, max_paths=60000, **{_KNOWN: 1})
+            jobs += _lu(m, maxcands=8, breadth=2, seed=(seed + 4) % 7, timeout_ms=60000, max_paths=60000, **{_KNOWN: 0})
             if m in _NO_POOLED_OPERANDS:
-                jobs += _lu(m, maxcands=8, breadth=1, seed=(seed + 5) % 7, timeout_ms=60000, max_paths=60000, **{_KNOWN: 1})
+                jobs += _lu(m, maxcands=8, breadth=1, seed=(seed + 5) % 7, timeout_ms=60000, max_paths=60000, **{_KNOWN: 0})
         for j in jobs:
             j["job_timeout_s"] = 3000
     # strict: without the tolerance parameter (reports the finding "plain objects under a type#relation filter")
@@ -86,7 +86,7 @@ def c06(tier, seed):
     # breadth limit 1 on an intersection (reports the finding "operands are queued on the bounded pool before their
     # result channels have readers": deadlock, in production a stall until the deadline and a silently partial answer);
     # seed pinned: the subset must hold two members of one document
-    jobs += _lu("intersection", maxcands=8, breadth=1, seed=4, timeout_ms=60000, max_paths=4000, **{_KNOWN: 1})
+    jobs += _lu("intersection", maxcands=8, breadth=1, seed=4, timeout_ms=60000, max_paths=4000, **{_KNOWN: 0})
     return jobs
 
 
